@@ -8,7 +8,8 @@ def examplesWF (d : Doc) : Bool := (exampleEntries d).all exampleShapeOK
 the code visits (none when examples validation is off or no schema is given) are well-formed. It is not an
 exclusion: in an accepted document, and in a conforming one, it holds at every node (C04Reach.lean). -/
 def examplesWFor (o : Opts) (d : Doc) : Bool :=
-  o.exDisabled || !d.attrs.flag "hasSchema" || !exampleKinds.contains d.kind || d.attrs.flag "hasExample" || examplesWF d
+  o.exDisabled || !d.attrs.flag "hasSchema" || !exampleKinds.contains d.kind || d.attrs.flag "hasExample" ||
+  (d.kind == .header && d.attrs.flag "again") || examplesWF d
 
 /-- without an `examples` field there is no example object to read -/
 theorem examplesWF_of_noflag (d : Doc) (h : d.attrs.flag "hasExamples" = false) : examplesWF d = true := by
@@ -41,6 +42,7 @@ def exampleClause (o : Opts) (d : Doc) : Bool := (exampleOK d && examplesGivenOK
 theorem exampleValues_eq (T : Table) (o : Opts) (d : Doc)
     (h1 : hasCheck T o d.attrs d.kind "example" = !o.exDisabled)
     (h2 : hasCheck T o d.attrs d.kind "examples" = (!o.exDisabled && !(d.kind == .parameter && d.attrs.flag "hasExample")))
+
     (hboth : (d.attrs.flag "hasExample" && d.attrs.flag "hasExamples") = false)
     (hwf : o.exDisabled = true ∨ d.attrs.flag "hasExample" = true ∨ examplesWF d = true) :
     exampleValuesOK T o d = exampleClause o d := by
@@ -67,17 +69,21 @@ theorem exampleValues_eq (T : Table) (o : Opts) (d : Doc)
       rw [this]
       cases o.exDisabled <;> cases (d.kind == Kind.parameter) <;> simp
 
-theorem exampleChecks (T : Table) (o : Opts) (a : Attrs) (k : Kind) (hT : TableOK T = true) (hk : k ∈ exampleKinds) :
+theorem exampleChecks (T : Table) (o : Opts) (a : Attrs) (k : Kind) (hT : TableOK T = true) (hk : k ∈ exampleKinds)
+    (hg : (k == .header && a.flag "again") = false) :
     hasCheck T o a k "example" = !o.exDisabled ∧
     hasCheck T o a k "examples" = (!o.exDisabled && !(k == .parameter && a.flag "hasExample")) := by
   have hf := (tableFacts T hT).ex k hk
-  exact ⟨anyHolds_as o a _ _ hf.1, anyHolds_as o a _ _ hf.2.1⟩
+  have h1 : hasCheck T o a k "example" = _ := anyHolds_as o a _ _ hf.1
+  have h2 : hasCheck T o a k "examples" = _ := anyHolds_as o a _ _ hf.2.1
+  simp only [hg, Bool.not_false, Bool.and_true] at h1 h2
+  exact ⟨h1, h2⟩
 
 theorem wf_split (o : Opts) (d : Doc) (hwf : examplesWFor o d = true) (hs : d.attrs.flag "hasSchema" = true)
-    (hk : exampleKinds.contains d.kind = true) :
+    (hk : exampleKinds.contains d.kind = true) (hg : (d.kind == .header && d.attrs.flag "again") = false) :
     o.exDisabled = true ∨ d.attrs.flag "hasExample" = true ∨ examplesWF d = true := by
   unfold examplesWFor at hwf
-  simp only [hs, hk, Bool.not_true, Bool.or_false, Bool.or_eq_true] at hwf
+  simp only [hs, hk, hg, Bool.not_true, Bool.or_false, Bool.or_eq_true] at hwf
   rcases hwf with (h | h) | h
   · exact Or.inl h
   · exact Or.inr (Or.inl h)
@@ -87,7 +93,7 @@ theorem localOK_parameter (T : Table) (o : Opts) (a : Attrs) (kids : List (Strin
     (hT : TableOK T = true) (hwf : examplesWFor o (.node .parameter a kids) = true) :
     localOK T o (.node .parameter a kids) vs = rulesOK o (.node .parameter a kids) := by
   have hx := checkExt_eq T o (.node .parameter a kids) hT (by simp [extKinds, Doc.kind])
-  obtain ⟨h1, h2⟩ := exampleChecks T o a .parameter hT (by simp [exampleKinds])
+  obtain ⟨h1, h2⟩ := exampleChecks T o a .parameter hT (by simp [exampleKinds]) (by simp)
   simp (disch := decide) only [localOK, localOKp, rulesOK, violations, Doc.kind, Doc.attrs, parameterOKCode, exampleViols, List.all_append, all_when,
     extra_all, hx, enabled_plain]
   simp only [enabled]
@@ -112,7 +118,7 @@ theorem localOK_parameter (T : Table) (o : Opts) (a : Attrs) (kids : List (Strin
       simp [c1, c2, c3, c4, c5, c6, c7a, c7b]
     have c7' : (a.flag "hasExample" && a.flag "hasExamples") = false := by simpa using c7
     have hv := exampleValues_eq T o (.node .parameter a kids) h1 h2 c7'
-      (wf_split o _ hwf hs (by simp [exampleKinds, Doc.kind]))
+      (wf_split o _ hwf hs (by simp [exampleKinds, Doc.kind]) (by simp [Doc.kind]))
     simp only [Doc.attrs, exampleClause] at hv
     rw [hv]
     simp [c1, c2, c3, c4, c5, c6, c7]
